@@ -100,3 +100,26 @@ claim("C20",
       "bounded exhaustive schedule enumeration over real UDP transports behind a harness-owned relay (one thread, harness-owned time)",
       "every schedule with <= d per-datagram deviations (drop, duplicate, delay, corrupt body, corrupt prefix, replay; plus an on-path replay of the connection request at any tick) applied by an in-path relay to the real NetcodeServerTransport / NetcodeClientTransport / RenetServer / RenetClient over loopback UDP sockets, for fifteen session scripts (no disconnect; client renet / transport disconnect after and during the handshake; server renet disconnect; disconnect_all; kick + disconnect_all; silent client; client sending on a channel the server lacks; two clients with one client id; a listen-server host next to the transport): lock-step of message and handshake layers and of the event stream after every server update, no lingering message-layer disconnects, prompt propagation of disconnects, no session outliving its time-out without authentic traffic, both-side teardown, untouched sessions stay healthy with every reliable message delivered exactly once in order",
       TB + "; Linux loopback UDP synchronous delivery (guarded by the determinism gate)", "DESIGN.md §5 C20")
+
+# deterministic scale cases added after the "hard mode" rounds of seeded changes (DESIGN.md §0, §8)
+SCALE = {
+    "C01": "a 120-slice message at 50 slices per tick with every single (thorough: pair of) lost packet(s); 257-5000 messages queued behind a missing one",
+    "C02": "as C01 on unordered channels; 300-5000 messages received ahead of a missing one, duplicates of all of them",
+    "C03": "connections with 129/200/256 channels (ids up to 255), three sizes per channel and direction",
+    "C05": "used-token table filled with 2047-2100 older tokens, and with 2047-4200 retransmissions of one request, before the token under test is presented from a second address",
+    "C06": "31-80 partially reassembled unreliable messages at once",
+    "C08": "the quick ack world keeps two ack packets outstanding",
+    "C09": "1250-2500 packets in flight before the first ack (4 ticks of latency); 60 ticks of exact tick-budget saturation against a reliable stream in the other direction",
+    "C10": "servers with max_clients 255/256/257/1024 (thorough: 12 sizes) filled by real clients: refusal of one more, payload routing both ways for every client, keep-alive rounds, kick and replace, one time-out",
+    "C11": "crowds of 2-300 (thorough: 2000) clients: broadcast, broadcast_except, unicast, sliced broadcast, every client sends; one kicked, one link dead",
+    "C12": "2-1000 clients connecting and disconnecting between two event drains",
+    "C13": "255-1000 one-byte messages in one flush",
+    "C15": "sessions starting at 7 and 100 days of uptime",
+    "C17": "key-stream reuse oracle on every pair of datagrams sealed under one key; fail-over to a second address of the same (multi-homed) server after a challenge and a whole time-out of silence",
+    "C18": "300-4100 half-open sessions (table limit 4096); tokens with 32 addresses (only the last / none answering); server uptime of 100 days and 2^32+7 s; late confirmation followed by partial silence; stale denials with a 2 s time-out",
+    "C20": "token whose first address is silent; a second, slow server on the same host whose answers arrive after the fail-over; one 2250 ms server update; 12 empty datagrams from a stranger",
+}
+for _pid, _s in SCALE.items():
+    if _pid in CLAIMED:
+        t, text, note, ref = CLAIMED[_pid]
+        CLAIMED[_pid] = (t, text + " Scale cases (deterministic, same oracles): " + _s + ".", note, ref)
